@@ -25,6 +25,8 @@ type Ty struct {
 	Ref   string // enum object oneof
 	Item  *Ty    // array map
 	PB    bool   // any: google.protobuf.Any
+	// Unsupported names a well-known type the codec cannot carry (an enum without options in the model)
+	Unsupported string
 }
 
 type Prop struct {
@@ -155,6 +157,18 @@ func (e *Env) visit(rs j5schema.RootSchema, desc protoreflect.MessageDescriptor)
 	return name, nil
 }
 
+// unsupported returns the type standing for a scalar the codec has no conversion for:
+// an enum schema without options, registered once per well-known type name.
+func (e *Env) unsupported(wkt string) *Ty {
+	name := "<no codec support: " + wkt + ">"
+	if e.byName[name] == nil {
+		s := &Schema{Name: name, Class: "enum"}
+		e.byName[name] = s
+		e.Schemas = append(e.Schemas, s)
+	}
+	return &Ty{Class: "enum", Ref: name, Unsupported: wkt}
+}
+
 func msgOf(fd protoreflect.FieldDescriptor) protoreflect.MessageDescriptor {
 	if fd == nil {
 		return nil
@@ -168,6 +182,13 @@ func msgOf(fd protoreflect.FieldDescriptor) protoreflect.MessageDescriptor {
 func (e *Env) ty(fs j5schema.FieldSchema, fd protoreflect.FieldDescriptor, holder protoreflect.MessageDescriptor) (*Ty, error) {
 	switch st := fs.(type) {
 	case *j5schema.ScalarSchema:
+		if _, isString := st.Proto.Type.(*schema_j5pb.Field_String_); isString && st.WellKnownTypeName != "" {
+			// a message-backed "string" scalar (google.protobuf.Duration): the reflector accepts the
+			// field but the codec has no conversion for it, so no text is acceptable. In the model this
+			// is an enum without options: strings are "not found", other JSON types are type errors,
+			// null is skipped, empty arrays / maps of it are fine
+			return e.unsupported(string(st.WellKnownTypeName)), nil
+		}
 		k, err := scalarKind(st.Proto)
 		if err != nil {
 			return nil, err
